@@ -67,6 +67,8 @@ func structFieldKinds(c *Ctx, pkg, typ string) map[string]string {
 func runC16(c *Ctx) {
 	r := c.R
 	defer ruleLoopNonBlocking(c, "R16.5")
+	defer ruleHeartbeatPacing(c, "R16.7")
+	defer borrowRules(c, "C14", runC14, map[string]string{"R14.4": "R16.6"}, "the rate-limit table is keyed by the channel object: a reconnection must be a new channel, or the first heartbeat on it is taken for a repeat")
 	r.NotDecided = append(r.NotDecided,
 		"spacing of heartbeats by the period and the 30 s window in real time",
 		"counts of requests over arrival histories (R16.3 decides the per-arrival decision, not the history)")
@@ -663,4 +665,71 @@ func globalConstElems(g *ssa.Global) ([]string, bool) {
 		out = append(out, v)
 	}
 	return out, true
+}
+
+// ruleHeartbeatPacing (R16.7): heartbeats are spaced by the configured period whatever else the node is doing. The
+// period drives a ticker created once outside any loop; a one-shot timer (time.After / NewTimer / Reset) that is armed
+// inside a loop which also waits for other events is re-armed by each of them, so traffic more frequent than the
+// period starves the heartbeat. Looked for in the whole root package, so it also holds when the heartbeat is moved
+// out of its own goroutine.
+func ruleHeartbeatPacing(c *Ctx, rule string) {
+	r := c.R
+	r.Rule(rule, "heartbeat pacing: HeartbeatPeriod arms a time.NewTicker created outside any loop, or a one-shot timer that is re-armed only in the select case of its own expiry; it is never re-armed by other events of a loop", 1)
+	n := 0
+	for _, fn := range rootFns(c) {
+		for _, ci := range callsIn(fn, func(nm string, cc *ssa.CallCommon) bool {
+			switch nm {
+			case "time.NewTicker", "time.Tick", "time.After", "time.NewTimer", "(time.Timer).Reset", "(time.Ticker).Reset", "time.AfterFunc":
+				for _, a := range cc.Args {
+					if strings.HasSuffix(ex(a), ".HeartbeatPeriod") {
+						return true
+					}
+				}
+			}
+			return false
+		}) {
+			n++
+			nm := calleeName(ci.Common())
+			key := fnLocalName(fn) + " " + nm
+			looped := inLoop(ci.Block())
+			switch {
+			case !looped:
+				r.OK(rule, key, c.Pos(ci.Pos()), "armed once, outside any loop")
+			case nm == "time.NewTicker" || nm == "time.Tick":
+				r.Fail(rule, key, c.Pos(ci.Pos()), "a new ticker is created on every iteration of a loop: the period restarts with each iteration")
+			default:
+				// one-shot timer inside a loop: only in the case body of its own expiry, i.e. every path from the loop's
+				// select to this call takes a receive case and no other event of the loop leads here
+				others := false
+				for _, in := range allInstrs(fn) {
+					sel, ok := in.(*ssa.Select)
+					if !ok || !inLoop(sel.Block()) || !reachFrom(sel.Block(), nil, nil)[ci.Block()] && sel.Block() != ci.Block() {
+						continue
+					}
+					reach := 0
+					for i := range sel.States {
+						cb := selectCaseBlock(sel, i)
+						if cb != nil && (cb == ci.Block() || pathWithin(cb, ci.Block(), sel.Block())) {
+							reach++
+						}
+					}
+					if reach != 1 && len(sel.States) > 1 {
+						others = true
+					}
+				}
+				r.Check(!others, rule, key, c.Pos(ci.Pos()), "re-armed only after its own expiry", "the heartbeat timer is re-armed inside a loop that also serves other events (every write, channel open / close postpones the next heartbeat: with traffic more frequent than the period no heartbeat is ever sent)")
+			}
+		}
+	}
+	if n == 0 {
+		r.Fail(rule, "heartbeat timer", "-", "nothing in the package is paced by HeartbeatPeriod")
+	}
+}
+
+// pathWithin: to is reachable from from without passing through stop.
+func pathWithin(from, to, stop *ssa.BasicBlock) bool {
+	if from == to {
+		return true
+	}
+	return reachFrom(from, nil, map[*ssa.BasicBlock]bool{stop: true})[to]
 }
